@@ -6,4 +6,63 @@ import Mctp.Lemmas.Bitfield
 import Mctp.Lemmas.Crc
 namespace Mctp
 
+/-! ### closed forms of the header constructors (the bit loops evaluated once and for all) -/
+
+theorem smbusHeaderFinal_eq (a d : B) (total : Nat) :
+    smbusHeaderFinal a d total =
+      [(d &&& 0x7F#8) <<< 1, 0x0F#8, BitVec.ofNat 8 (total - 4), ((a &&& 0x7F#8) <<< 1) ||| 1#8] := by
+  sorry
+
+theorem transportHeader_eq (a d : B) : transportHeader a d = [0x01#8, d, a, 0xC8#8] := by
+  sorry
+
+theorem bodyHeader_eq (t : MsgType) : bodyHeader t = [t.toByte &&& 0x7F#8] := by
+  sorry
+
+theorem ctrlHeader_eq (rq : Bool) (cmd : Cmd) :
+    ctrlHeader rq cmd = [if rq then 0x80#8 else 0x00#8, cmd.toByte] := by
+  sorry
+
+theorem pciHeader_eq (data : BitVec 32) :
+    pciHeader data = [(data >>> 8).setWidth 8, data.setWidth 8] := by
+  sorry
+
+theorem ianaHeader_eq (data : BitVec 32) :
+    ianaHeader data =
+      [(data >>> 24).setWidth 8, (data >>> 16).setWidth 8, (data >>> 8).setWidth 8, data.setWidth 8] := by
+  sorry
+
+/-! ### normal form of a packet -/
+
+/-- the nine fixed bytes, then additional header and data -/
+def packetPre (a d : B) (t : MsgType) (h : Option Bytes) (data : Bytes) : Bytes :=
+  (d &&& 0x7F#8) <<< 1 :: 0x0F#8 :: BitVec.ofNat 8 (6 + optLen h + data.length) ::
+    (((a &&& 0x7F#8) <<< 1) ||| 1#8) :: 0x01#8 :: d :: a :: 0xC8#8 :: (t.toByte &&& 0x7F#8) ::
+      (optBytes h ++ data)
+
+theorem packetBytes_eq (a d : B) (t : MsgType) (h : Option Bytes) (data : Bytes) :
+    packetBytes a d t h data = packetPre a d t h data ++ [crc8 (packetPre a d t h data)] := by
+  sorry
+
+theorem packetBytes_length (a d : B) (t : MsgType) (h : Option Bytes) (data : Bytes) :
+    (packetBytes a d t h data).length = 10 + optLen h + data.length := by
+  sorry
+
+/-- `generate_*_packet_bytes` on a buffer that is long enough -/
+theorem genPacket_ok (a d : B) (t : MsgType) (h : Option Bytes) (data buf : Bytes)
+    (hfit : 1 + optLen h + data.length ≤ 250) (hbuf : 10 + optLen h + data.length ≤ buf.length) :
+    genPacket a d t h data buf =
+      .ok (packetBytes a d t h data ++ buf.drop (10 + optLen h + data.length), 10 + optLen h + data.length) := by
+  sorry
+
+theorem genPacket_oversize (a d : B) (t : MsgType) (h : Option Bytes) (data buf : Bytes)
+    (hbig : 250 < 1 + optLen h + data.length) : genPacket a d t h data buf = .err () := by
+  sorry
+
+/-- on a buffer that is too short the writer panics (slice or index out of range) -/
+theorem genPacket_short (a d : B) (t : MsgType) (h : Option Bytes) (data buf : Bytes)
+    (hfit : 1 + optLen h + data.length ≤ 250) (hbuf : buf.length < 10 + optLen h + data.length) :
+    ∃ p, genPacket a d t h data buf = .panic p := by
+  sorry
+
 end Mctp
